@@ -7,6 +7,8 @@ from vlib import ToolError, Result, log
 # driver lists per property and tier
 PLAN = {
     "C01": {"drivers": ["small"], "models": []},
+    "C05": {"drivers": ["small"], "models": []},
+    "C08": {"drivers": ["small"], "models": []},
     "C02": {"drivers": ["small"], "models": []},
     "C16": {"drivers": ["small"], "models": []},
 }
